@@ -50,6 +50,7 @@ struct OpCfg
 
 static void configure(mdl_op & op, const OpCfg & c)
 {
+  if (verif_debug_flags()) op.debug = true;
   bxdecay0::particle_code code = c.species == 0 ? bxdecay0::INVALID_PARTICLE : (bxdecay0::particle_code)c.species;
   if (c.axis_form) {
     double x = c.axis_scale * std::cos(c.phi) * std::sin(c.theta), y = c.axis_scale * std::sin(c.phi) * std::sin(c.theta), z = c.axis_scale * std::cos(c.theta);
